@@ -548,6 +548,55 @@ func ruleS3(p *Prog, r *Report) {
 			}
 		})
 	}
+	// helpers a commit routine calls or defers: a write-set entry deleted there under a key that is not the helper's
+	// parameter (a sweep over the map, say) is a deletion no register write of the same id can vouch for - and a deferred
+	// one also runs on the failure exits
+	nHelp := 0
+	seenH := map[*ssa.Function]bool{}
+	for _, top := range sortedFuncs(p, keysOf(bw)) {
+		eachInstrDeep(top, func(fn *ssa.Function, in ssa.Instruction) {
+			c, ok := in.(ssa.CallInstruction)
+			if !ok {
+				return
+			}
+			g := c.Common().StaticCallee()
+			if g == nil || g.Pkg != p.RootSSA || len(g.Blocks) == 0 || bw[g] != nil || recvName(g) != storageT {
+				return
+			}
+			_, isDefer := in.(*ssa.Defer)
+			nHelp++
+			if seenH[g] && !isDefer {
+				return
+			}
+			seenH[g] = true
+			eachInstrDeep(g, func(gf *ssa.Function, y ssa.Instruction) {
+				fw, ok := fieldWriteOf(y)
+				if !ok || !fw.Ref.is(storageT, "deltas") {
+					return
+				}
+				switch fw.Kind {
+				case "mapdelete":
+					isParam := false
+					for _, q := range g.Params {
+						if canon(fw.Key) == ssa.Value(q) {
+							isParam = true
+						}
+					}
+					if isParam && !isDefer {
+						return // a retire-this-id helper: judged at its call sites
+					}
+					how := "called"
+					if isDefer {
+						how = "deferred (it also runs on every failure exit)"
+					}
+					r.Bad(R, "delete-deltas-in-helper:"+p.Name(top)+":"+p.Name(g), p.InstrPos(y), "a helper "+how+" by a commit routine deletes write-set entries that no successful register write of the same id vouches for: a pending change (a deletion whose register delete failed or was not reached) would vanish from the write set and a retry would never apply it")
+				case "assign":
+					r.Bad(R, "reset-deltas-in-helper:"+p.Name(top)+":"+p.Name(g), p.InstrPos(y), "a helper of a commit routine replaces the whole write set")
+				}
+			})
+		})
+	}
+	r.Decide(true, R, "commit-helpers-scanned", "-", "storage-method helpers called or deferred by commit routines scanned for write-set deletions: "+itoa(nHelp), "")
 	r.Floor(R, "delete(deltas,id) sites in commit routines", 3, nDel)
 	r.Floor(R, "cache updates in commit routines", 3, nCache)
 }
